@@ -742,6 +742,9 @@ def model_quantize(model,
 
   for layer in layers:
     layer_config = layer["config"]
+    # Only set for the layers converted below; any other layer (e.g. a
+    # user-defined one) keeps its class and registered name.
+    q_name = None
 
     # Dense becomes QDense, Conv1D becomes QConv1D etc
     # Activation converts activation functions.
